@@ -20,22 +20,22 @@ const modPath = "github.com/zitadel/saml"
 // World is the resolved program: type-checked syntax, SSA and indexes, built
 // from the working tree of the repository on every run.
 type World struct {
-	RepoDir string
-	Fset    *token.FileSet
-	Pkgs    []*packages.Package          // module packages, sorted by path
-	PkgBy   map[string]*packages.Package // by import path (all, incl. deps)
-	Prog    *ssa.Program
-	SSAPkg  map[string]*ssa.Package // module packages by short name ("provider", "xml", ...)
+	RepoDir   string
+	Fset      *token.FileSet
+	Pkgs      []*packages.Package          // module packages, sorted by path
+	PkgBy     map[string]*packages.Package // by import path (all, incl. deps)
+	Prog      *ssa.Program
+	SSAPkg    map[string]*ssa.Package         // module packages by short name ("provider", "xml", ...)
 	wrapperOf map[*ssa.Function]*ssa.Function // implementation -> the wrapper whose name and key it takes
-	Funcs   []*ssa.Function         // all module functions incl. anonymous, excl. mock
-	funcBy  map[string]*ssa.Function
-	alias   map[*ssa.Function]string // renamed helper -> its name in the reference tree
-	Renamed []string
-	declOf  map[*ssa.Function]ast.Node
-	NFiles  int
-	infra   []string // infrastructure problems (type errors, ...)
-	fx      *Facts   // set once the facts are built: lets refClosure follow function values kept in variables
-	soleImpl map[*types.Named]types.Type
+	Funcs     []*ssa.Function                 // all module functions incl. anonymous, excl. mock
+	funcBy    map[string]*ssa.Function
+	alias     map[*ssa.Function]string // renamed helper -> its name in the reference tree
+	Renamed   []string
+	declOf    map[*ssa.Function]ast.Node
+	NFiles    int
+	infra     []string // infrastructure problems (type errors, ...)
+	fx        *Facts   // set once the facts are built: lets refClosure follow function values kept in variables
+	soleImpl  map[*types.Named]types.Type
 }
 
 func shortPkg(path string) string {
